@@ -169,6 +169,11 @@ def sched_parts(pid: str, tier: str):
         mk("whole-run-N3-both-flavours", Cfg(N=3, resources="tma", flavours="sa", sym_prio=True, monitors=mons), base_req, 600)
         # a failing node in the AsyncDAG flavour: the loop is not held while the other nodes of the run are still in flight
         mk("whole-run-N3-async-faults", Cfg(N=3, resources="tma", flavours="a", faults=1, sym_seq=False, monitors=("C17", "C04", "C09")), base_req + ["w_fault"], 600)
+        from harness.history import HCfg, run_c15
+
+        # executors are part of "equals DAG": the same histories of executor creations, runs and failing runs in both flavours
+        parts.append(Part("executor-histories-len3-both-flavours", P(run_c15, HCfg(length=3, flavours="sa", ops="exec")), {"length": "3+1", "operations": "call, executor create (whole / target), run, failing run", "flavours": "sync and async against the same reference"},
+                          900, 8, ["w_final_call", "w_rerun_after_failure|w_refused_after_failure"], HIST_FUNCS))
         from harness.threads import TCfg, run_threads
 
         parts.append(Part("concurrent-awaits-2", P(run_threads, TCfg(mode="awaits", threads=2)), {"awaits": 2, "N": 3, "shapes": 3, "nodes": "async-thread (one optionally thread)", "max_concurrency": "1..3",
@@ -383,7 +388,7 @@ def history_parts(pid: str, tier: str):
             parts.append(Part("histories-len4", P(run_c15, HCfg(length=4, flavours="s")), dict(b, length="4+1"), 2400, 9, ["w_final_call"], HIST_FUNCS))
     elif pid == "C18":
         b = {"N": 3, "caching selection": "whole, target=[i], cache_deps_of=[i]", "restart": "same selection or whole DAG; on the same instance or on a pristine deep copy", "setup": "first node optionally a setup node"}
-        parts.append(Part("cache-restart", P(run_c18, HCfg(N=3, length=3, flavours="sa")), dict(b, flavours="sync and async", extra="restart from a cache written by another instance"), 900, 8, ["w_deps_of_restart", "w_deps_of_two", "w_foreign_cache"], HIST_FUNCS))
+        parts.append(Part("cache-restart", P(run_c18, HCfg(N=3, length=3, flavours="sa")), dict(b, flavours="sync and async", extra="restart from a cache written by another instance"), 900, 8, ["w_deps_of_restart", "w_deps_of_two", "w_foreign_cache", "w_chained_caches"], HIST_FUNCS))
         parts.append(Part("cache-restart-two-rounds-N2", P(run_c18, HCfg(N=2, length=4)), dict(b, N=2, rounds="two caching runs on the same file, each followed by a restart"), 900, 8, ["w_second_round"], HIST_FUNCS))
         if not q:
             parts.append(Part("cache-restart-two-rounds", P(run_c18, HCfg(N=3, length=4)), dict(b, rounds=2), 2400, 9, ["w_second_round"], HIST_FUNCS))
